@@ -1,7 +1,77 @@
-/- line-protocol handler for model "beresp" (stub until its model is built) -/
+/- line-protocol handler for model "beresp" (C10: backend response relay) -/
+import LtVerif.Model.BackendResp
 namespace Driver
+open LtVerif LtVerif.B LtVerif.BeResp
+
+def berespEv : Ev → String
+  | .w b => "W:" ++ toHex b
+  | .interim s h => "I:" ++ toString s ++ ":" ++ toHex h
+  | .hdrs s h => "H:" ++ toString s ++ ":" ++ toHex h
+  | .trailers t => "T:" ++ toHex t
+  | .endStream => "E"
+  | .rst => "R"
+
+def berespBit (b : Bool) : String := if b then "1" else "0"
+
+def berespOut (st : St) : String :=
+  String.join (st.evs.map fun e => berespEv e ++ " ") ++
+  "end=" ++ (if st.cstate ≠ .done then "pend" else if st.keepAlive then "ka" else "close") ++
+  " st=" ++ toString st.status ++
+  " fl=" ++ berespBit st.started ++ berespBit st.finished ++ berespBit st.handler ++ berespBit st.cerr
+
+def berespBackend : String → Option Backend
+  | "proxy" => some .proxy
+  | "cgi" => some .cgi
+  | "scgi" => some .scgi
+  | "fcgi" => some .fcgi
+  | _ => none
+
+def berespEnd : String → Option End
+  | "eof" => some .eof
+  | "rst" => some .rst
+  | "err" => some .err
+  | "hup" => some .hup
+  | "none" => some .none
+  | _ => none
 
 def berespLine : List String → String
+  | "relay" :: be :: ver :: stream :: meth :: e :: segs =>
+    match berespBackend be, ver.toNat?, stream.toNat?, berespEnd e, segs.mapM ofHex with
+    | some b, some v, some s, some en, some ss =>
+      let cfg : Cfg := { be := b, ver := if v = 10 then 0 else if v = 11 then 1 else 2, stream := s,
+                         head := meth = "H" }
+      berespOut (relay cfg ss en)
+    | _, _, _, _, _ => "bad-op"
+  | "dechunk" :: _mf :: _sc :: segs =>
+    match segs.mapM ofHex with
+    | some ss =>
+      let st := ss.foldl dcFeed ({} : DcSt)
+      match st.mode with
+      | .err => "err out=" ++ toHex st.out
+      | .done acc => "ok out=" ++ toHex st.out ++ " te=0 t=" ++ toHex (dcTrailerFields acc) ++ " done=200 fin=1 ka=1"
+      | m => "ok out=" ++ toHex st.out ++ " te=" ++ toString (dcTe m) ++ " h=" ++ toHex (dcBuf m) ++
+             " done=0 fin=0 ka=1"
+    | none => "bad-op"
+  | "fcgi" :: segs =>
+    match segs.mapM ofHex with
+    | some ss =>
+      -- response headers already complete: STDOUT content is body
+      let rec go (evs : List FrEv) (out : Bytes) : Bytes × Bool :=
+        match evs with
+        | [] => (out, false)
+        | .stdout d :: rest => go rest (out ++ d)
+        | .endRequest :: _ => (out, true)
+        | _ :: rest => go rest out
+      -- the C stops reading once a segment completed the request
+      let rec feed (ss : List Bytes) (st : FrSt) : FrSt :=
+        match ss with
+        | [] => st
+        | s :: rest => if st.ended then st else feed rest (frFeed st s)
+      let st := feed ss {}
+      let (out, fin) := go st.evs []
+      (if fin then "fin" else "go") ++ " out=" ++ toHex out ++ " rb=" ++
+        toString (if fin then 0 else st.buf.length) ++ " rid=" ++ (if fin then "-1" else "1")
+    | none => "bad-op"
   | _ => "bad-op"
 
 end Driver
